@@ -129,7 +129,7 @@ def run(tier):
                             accepted=sum(1 for c in cases if c.split(' | ')[1].startswith('0 0')))
     v.cov['samples'].append(dict(kind='E1 case from TLC (tinit <description> | allowed (code index) pairs or post-state)', events=cases[1000:1002]))
     ss = []
-    for rnd in vf.rounds(tier, 5):
+    for rnd in vf.rounds(tier, 12):
         ss += list(scripts(rnd, quick))
     vf.trace_flow(v, 'RegTableTrace.tla', 'RegTableTrace.cfg', 'regtab', ss, 'ti')
     v.cov['distinct_nontrivial'] += len(set(l for s in ss for l in s if l.startswith('tinit')))
